@@ -474,6 +474,37 @@ def cases():
     add("map-type-btree", "settings", root(mix({})), {"map_type": "::std::collections::BTreeMap", "struct_builder": True})
     add("map-type-bogus", "settings", root(mix({})), {"map_type": "not a type"})
 
+    # ------------------------------------------------------------ maps with constrained keys, in struct positions
+    def mp(keys, val, required, **extra):
+        m = dict({"type": "object"}, **keys)
+        if val is not None:
+            m["additionalProperties"] = val
+        return obj({"m": m, "n": I}, ["m"] if required else None, **extra)
+    KP = {"propertyNames": {"pattern": "^[a-z]+$"}}
+    KR = {"propertyNames": {"$ref": "#/definitions/Key"}}
+    KF = {"propertyNames": {"format": "date"}}
+    KE = {"propertyNames": {"type": "string", "enum": ["a", "b"]}}
+    KEYDEF = {"Key": {"type": "string", "pattern": "^k[0-9]+$"}}
+    for nm, keys in (("pattern", KP), ("ref", KR), ("format", KF), ("enum", KE)):
+        for vn, val in (("any", None), ("any-true", True), ("typed", I), ("ref", ref("Key"))):
+            for req in (False, True):
+                add("maps-%s-%s-%s" % (nm, vn, "required" if req else "optional"), "maps", root(dict(KEYDEF, T=mp(keys, val, req))),
+                    note="struct property that is a map with constrained keys (%s) and %s values" % (nm, vn))
+    add("maps-pattern-any-optional-btree", "maps", root(dict(KEYDEF, T=mp(KP, None, False))), {"map_type": "::std::collections::BTreeMap"})
+    add("maps-ref-any-optional-btree-builder", "maps", root(dict(KEYDEF, T=mp(KR, None, False))),
+        {"map_type": "::std::collections::BTreeMap", "struct_builder": True})
+    add("maps-pattern-any-optional-hashmap-explicit", "maps", root(dict(KEYDEF, T=mp(KP, None, False))), {"map_type": "::std::collections::HashMap"})
+    add("maps-patternprops-optional", "maps",
+        root({"T": obj({"m": {"type": "object", "patternProperties": {"^x-": {}}, "additionalProperties": False}, "n": I})}))
+    add("maps-patternprops-typed-optional", "maps",
+        root({"T": obj({"m": {"type": "object", "patternProperties": {"^x-": I}, "additionalProperties": False}, "n": I})}))
+    add("maps-optional-in-variant", "maps",
+        root(dict(KEYDEF, E={"oneOf": [obj({"t": {"enum": ["x"]}, "m": dict({"type": "object"}, **KP)}, ["t"]),
+                                       obj({"t": {"enum": ["y"]}, "w": S}, ["t"])]})),
+        note="optional constrained-key map as a field of a struct VARIANT (internally tagged)")
+    add("maps-optional-boxed-recursive", "maps",
+        root({"T": obj({"kids": {"type": "object", "propertyNames": {"pattern": "^[a-z]+$"}, "additionalProperties": ref("T")}, "any": dict({"type": "object"}, **KP)})}))
+
     # ------------------------------------------------------------ histories
     add("hist-add-then-refs", "history", [{"op": "add", "schema": obj({"a": S}), "name": "Foo"}] + refs({"Bar": obj({"b": I})}))
     add("hist-add-same-name", "history", [{"op": "add", "schema": obj({"a": S}), "name": "Foo"}, {"op": "add", "schema": obj({"b": I}), "name": "Foo"}])
